@@ -14,7 +14,8 @@
    [slot_path sp i] is the field path the parsed attribute [sp] designates for
    raw slot i (2 = slotIndexA, 3 = slotIndexB, 6 = slotValueA, 7 = slotValueB). *)
 From Coq Require Import ZArith List String Ascii Permutation.
-From GSP Require Import Base.Prelude Claim.Model Claim.Theory Claim.Slots.
+From GSP Require Import Base.Prelude Claim.Model Claim.Theory Claim.Slots Claim.AttrAgree.
+From GSP Require Total.Model.
 Import ListNotations.
 Open Scope Z_scope.
 
@@ -196,3 +197,37 @@ Theorem C17_facade_transparent :
      forall u, facade_load C S D Opt p u = facade_load C S D Opt p' u).
 Proof. exact facade_transparent. Qed.
 Print Assumptions C17_facade_transparent.
+
+(* the attribute at STRING level, against the independently written executable model of
+   ParseSerializationAttr in Total/Model.v (strings.Split with an accumulator, slice indexing):
+   the two models give the same parsed paths, or both an error, on EVERY string (no panic) *)
+Theorem C17_attr_models_agree :
+  forall a,
+  match GSP.Total.Model.parse_ser_attr a, parse_serialization_attr a with
+  | Ok x, Ok y =>
+      {| p_index_a := GSP.Total.Model.sp_ia x; p_index_b := GSP.Total.Model.sp_ib x;
+         p_value_a := GSP.Total.Model.sp_va x; p_value_b := GSP.Total.Model.sp_vb x |} = y
+  | Err _, Err _ => True
+  | _, _ => False
+  end.
+Proof. exact parse_models_agree. Qed.
+Print Assumptions C17_attr_models_agree.
+
+(* GetFieldSlotIndex's lookup and parseSlots' placement read the SAME parsed attribute: for every
+   attribute string a that the context holds for the type and every field f, if index i is reported
+   then a parses (Total's parser) to paths x, i is the first data slot x designates for f, and
+   the claim builder has put f's encoding - and every other designated field's - in that raw slot *)
+Theorem C17_attr_parse_agrees :
+  forall O c caller mz ts tp a f i cl,
+  c_mz c = Some mz -> c_ctx c = Some ts -> find_credential_type mz = Ok tp ->
+  f <> ""%string ->
+  serialization_attr_of_context ts tp = Ok a ->
+  get_field_slot_index f tp (SCtx (Some ts)) = Ok i ->
+  fst (to_core_claim O c caller) = Ok cl ->
+  exists x, GSP.Total.Model.parse_ser_attr a = Ok x /\
+    In i [2; 3; 6; 7] /\ slot_path (conv x) i = f /\
+    (forall j, In j [2; 3; 6; 7] -> j < i -> slot_path (conv x) j <> f) /\
+    enc_of mz f = Ok (raw_slot cl i) /\
+    (forall j, In j [2; 3; 6; 7] -> enc_of mz (slot_path (conv x) j) = Ok (raw_slot cl j)).
+Proof. exact attr_parse_agrees. Qed.
+Print Assumptions C17_attr_parse_agrees.
